@@ -398,7 +398,8 @@ function!(BitNot(b:Integer)=>Integer, {
 
 function!(Negative(b:Integer)=>Integer, {
     let b:i64 = b.try_into()?;
-    Ok((-b).into())
+    let r = b.checked_neg().ok_or_else(|| err_msg("integer overflow"))?;
+    Ok(r.into())
 });
 
 macro_rules! int_op{
@@ -408,24 +409,48 @@ macro_rules! int_op{
             let b:i64 = b.try_into()?;
             Ok((a $op b).into())
         });
-    }
+    };
+    // arithmetic that can overflow or divide by zero: evaluation error, never a panic
+    ($name:ident, checked $f:ident) =>{
+        function!($name(a: Integer, b: Integer)=>Integer, {
+            let a:i64 = a.try_into()?;
+            let b:i64 = b.try_into()?;
+            let r = a.$f(b).ok_or_else(|| {
+                err_msg(format!("integer overflow or division by zero: {}({}, {})", stringify!($name), a, b))
+            })?;
+            Ok(r.into())
+        });
+    };
+    // shift count must be in 0..64
+    ($name:ident, shift $f:ident) =>{
+        function!($name(a: Integer, b: Integer)=>Integer, {
+            let a:i64 = a.try_into()?;
+            let b:i64 = b.try_into()?;
+            let r = u32::try_from(b).ok().and_then(|n| a.$f(n)).ok_or_else(|| {
+                err_msg(format!("integer overflow: shift count {} out of range", b))
+            })?;
+            Ok(r.into())
+        });
+    };
 }
 
-int_op!(Plus,+);
-int_op!(Minus,-);
-int_op!(Multiply,*);
-int_op!(Divide,/);
-int_op!(Mod,%);
+int_op!(Plus, checked checked_add);
+int_op!(Minus, checked checked_sub);
+int_op!(Multiply, checked checked_mul);
+int_op!(Divide, checked checked_div);
+int_op!(Mod, checked checked_rem);
 int_op!(BitAnd,&);
 int_op!(BitOr,|);
 int_op!(BitXor,^);
-int_op!(ShiftLeft,<<);
-int_op!(ShiftRight,>>);
+int_op!(ShiftLeft, shift checked_shl);
+int_op!(ShiftRight, shift checked_shr);
 function!(ShiftRightUnsigned(a: Integer, b: Integer)=>Integer, {
     let a:i64 = a.try_into()?;
     let b:i64 = b.try_into()?;
     let a = a as u64;
-    let a = (a >> b) as i64;
+    let a = u32::try_from(b).ok().and_then(|n| a.checked_shr(n)).ok_or_else(|| {
+        err_msg(format!("integer overflow: shift count {} out of range", b))
+    })? as i64;
     Ok(a.into())
 });
 
